@@ -3,10 +3,10 @@ CONSTANTS
   MaxOps = 2
   Orgs = {"o1"}
   SeedNames = {"A","B","C"}
-  Unflushed = {"CreateOrg","UpdateOrg","CreateTeam","RevokeToken","DeleteToken"}
+  Unflushed = {"CreateOrg","UpdateOrg","CreateTeam","DeleteToken"}
   AuthUnflushed = {"SetTokenPerms","RevokeToken"}
   ExpirePos = {0, 1, 2}
-  ExpireBefore = {"CreateOrg","UpdateOrg","DeleteOrg","CreateTeam","UpdateTeam","DeleteTeam","CreateRole","UpdateRole","DeleteRole","CreateMP","DeleteMP","AddMember","RemoveMember","SetTokenPerms","RevokeToken","DeleteToken"}
+  ExpireBefore = {"ReseedOrg","CreateOrg","UpdateOrg","DeleteOrg","CreateTeam","UpdateTeam","DeleteTeam","CreateRole","UpdateRole","DeleteRole","CreateMP","DeleteMP","AddMember","RemoveMember","SetTokenPerms","RevokeToken","DeleteToken"}
   TeamScan = FALSE
   Emit = FALSE
 INVARIANTS CacheCoherent
